@@ -122,7 +122,7 @@ def check_case(case, acc):
     acc.case((case['n'], k, kind, enc, case['blocked'], case.get('style')), nontrivial=True,
              outcome=kind if not kind.startswith('mut:') else 'mutation')
     from vf import fileobjs
-    src, _done = fileobjs.reader(('bytesio', 'pipe', 'minimal')[len(data) % 3], data)
+    src, _done = fileobjs.reader(('bytesio', 'pipe', 'minimal', 'smallbuf', 'zip')[len(data) % 5], data)
     rd = mciipm.IpmReader(src, encoding=enc, blocked=case['blocked'])
     got = []
     err = None
